@@ -86,8 +86,8 @@ class ScopesDriver:
         else:
             raise ValueError(name)
         o = self._obs()
-        if w.loop.exceptions:
-            return dict(loop_errors=[str(c.get("message")) for c in w.loop.exceptions], obs=o)
+        if w.loop.exceptions or w.disp_errors:
+            return dict(loop_errors=[str(c.get("message")) for c in w.loop.exceptions] + list(w.disp_errors), obs=o)
         return o
 
     def close(self):
